@@ -1,5 +1,6 @@
 import Tickit.Model.TermPen
 import Tickit.Model.TermSuspend
+import Tickit.Model.SgrStrict
 import Tickit.Gen.TermBuf
 import Tickit.Driver.Common
 /-
@@ -19,6 +20,11 @@ import Tickit.Driver.Common
   "change-pen overlays only the attributes present in its argument" is also judged on its own (`frameDiff`): the bytes of a
   `chpen` must leave every rendering attribute whose pen attribute is absent from the argument as it was — whatever state the
   terminal was in (so also when an earlier request could not be encoded).
+  "The rendering state is determined by the SGR bytes emitted for setpen/chpen" also means that a pen request emits SGR
+  sequences and nothing else (`Model/SgrStrict.lean`, `strictDiff`): a byte that reaches the terminal outside a control sequence
+  is printed at the cursor or executed as a C0 control — the pen request drew something — and a sequence that is not an SGR
+  changes some other state.  Judged on the implementation's bytes of every request (configuration `x`); for `suspend` only the
+  bytes outside sequences are judged (which mode sequences pause and resume write is C12's business).
 -/
 namespace Tickit.Driver.SgrEngine
 open Tickit Tickit.Driver Tickit.TermPen Tickit.Sgr
@@ -130,11 +136,22 @@ def frameDiff (p : Pen) (before after : Attrs) : String :=
     chg "sizepos" p.sizepos.isNone (before.sizepos ≠ after.sizepos) (showSizePos before.sizepos) (showSizePos after.sizepos)]
   (cs.filterMap id).headD ""
 
+/-- A pen request (or pause + resume) must put nothing on the terminal but control sequences, and a pen request nothing but
+    SGR sequences: `bytes` arrive at the terminal `vt`. -/
+def strictDiff (what : String) (bytes : List Nat) (vt : VT) (seqs : Bool) : String :=
+  let ss := strays bytes vt
+  if !ss.isEmpty then
+    s!"{what} sent {ss.length} byte(s) outside any control sequence (hex {bytesHexN (ss.take 12)}): the terminal prints them at the cursor or executes them; only SGR sequences may be emitted"
+  else if seqs && foreign bytes vt ≠ 0 then
+    s!"{what} sent a control sequence that is not an SGR ({foreign bytes vt} offending byte(s))"
+  else ""
+
 /-- value of `key=` in an observation -/
 def field? (ts : List String) (key : String) : Option String :=
   (ts.find? (·.startsWith (key ++ "="))).map (fun t => (t.drop (key.length + 1)).toString)
 
-def specAfter (st : DState) (vt' : VT) (l' : Pen) (bytes : List Nat) (noopCheck : Bool) (chArg : Option Pen := none) : String :=
+def specAfter (st : DState) (vt' : VT) (l' : Pen) (bytes : List Nat) (noopCheck : Bool) (chArg : Option Pen := none)
+    (strict : String := "") : String :=
   if vt'.st ≠ .ground then "the terminal is left inside an unterminated control sequence"
   else
     let fr := match chArg with
@@ -144,6 +161,7 @@ def specAfter (st : DState) (vt' : VT) (l' : Pen) (bytes : List Nat) (noopCheck 
     -- the verdict names what the logical pen wants; the frame clause is added when it fails too
     if d ≠ "" then (if fr ≠ "" then d ++ "; " ++ fr else d)
     else if fr ≠ "" then fr
+    else if strict ≠ "" then strict
     else if noopCheck && l' = st.logical && !bytes.isEmpty then
       s!"request leaves the logical pen unchanged but emits {bytes.length} bytes"
     else ""
@@ -171,7 +189,7 @@ def penOp (st : DState) (op : Op) (impl : String) : DState × String × String :
       | some bs =>
         let bytes := bs.map (·.toNat)
         let vt' := run bytes st.vt
-        (vt', specAfter st vt' l' bytes true chArg)
+        (vt', specAfter st vt' l' bytes true chArg (strictDiff "the pen request" bytes st.vt true))
       | none =>
         (st.vt, if impl.startsWith "CRASH" then s!"the implementation aborted under the sanitizers ({impl})"
                 else s!"no bytes to interpret: implementation said '{impl}'")
@@ -207,8 +225,9 @@ def suspendOp (st : DState) (impl : String) : DState × String × String :=
       match (field? its "p").bind hexBytes?, (field? its "b").bind hexBytes? with
       | some ps, some bs =>
         let bytes := bs.map (·.toNat)
-        let vt' := run bytes (run (ps.map (·.toNat)) st.vt)
-        (vt', pre (specAfter st vt' st.logical bytes false))
+        let pbytes := ps.map (·.toNat)
+        let vt' := run bytes (run pbytes st.vt)
+        (vt', pre (specAfter st vt' st.logical bytes false none (strictDiff "pause + resume" (pbytes ++ bytes) st.vt false)))
       | _, _ => (st.vt, crash)
     ({ st with dead := dead', vt := vt' }, mobs, sv)
   else
